@@ -6,7 +6,7 @@
    [rbit r j]: the bit reader r sees at absolute position j (the data bit when inside the data and below the limit, else 0). *)
 From Coq Require Import ZArith List Bool.
 From PV Require Import BLS.Model Layout.Types Serdes.Model Serdes.Bits Serdes.ReaderProofs Serdes.Spec Serdes.DeserProofs
-  Serdes.Roundtrip Serdes.DeserSim Serdes.ZeroExt Serdes.ProofsReject Serdes.DecodedValid.
+  Serdes.Roundtrip Serdes.DeserSim Serdes.ZeroExt Serdes.ProofsReject Serdes.DecodedValid Serdes.DeserTrunc.
 Import ListNotations.
 Open Scope Z_scope.
 
@@ -35,6 +35,21 @@ Theorem C07_truncation_ser : forall t v hdr bytes junk,
   bytes_ok junk -> serialize t v hdr = Ok bytes -> deserialize t (bytes ++ junk) hdr = Ok (canon t v).
 Proof. exact roundtrip_junk. Qed.
 Print Assumptions C07_truncation_ser.
+
+(* implicit truncation in general: when deserialization of b succeeds and stops inside b ([consumed] = final reader offset,
+   i.e. b contains a complete representation, canonical or not), appended bytes are ignored.  Without the bound the
+   statement would be false - a short b that relies on zero extension reads the appended bytes instead - and the property
+   does not claim it. *)
+Theorem C07_truncation : forall t b hdr v c junk, wft t = true -> bytes_ok b -> bytes_ok junk ->
+  deserialize t b hdr = Ok v -> consumed t b hdr = Some c -> c <= 8 * zlen b ->
+  deserialize t (b ++ junk) hdr = Ok v.
+Proof. exact truncation. Qed.
+Print Assumptions C07_truncation.
+
+(* the reader only moves forward *)
+Theorem C07_reader_monotone : forall t, wft t = true -> forall r v r', rok r -> deser t r = Ok (v, r') -> roff r <= roff r' /\ rok r'.
+Proof. exact deser_mono. Qed.
+Print Assumptions C07_reader_monotone.
 
 (* implicit zero extension: b and b followed by zero bytes decode alike (a successful result never changes) *)
 Theorem C07_zero_ext : forall t b n hdr v, wft t = true -> bytes_ok b ->
